@@ -194,8 +194,6 @@ func (s *Server) Run(addr string, opt ...Option) error {
 		s.connWg.Add(1)
 		go func() {
 			defer func() {
-				s.logger.Debug("connWg done", "op", op, "conn", localConnID)
-				s.connWg.Done()
 				err := conn.close()
 				if err != nil {
 					s.logger.Error("error closing conn", "op", op, "conn", localConnID, "conn/req", "err", err)
@@ -205,6 +203,10 @@ func (s *Server) Run(addr string, opt ...Option) error {
 				if s.onCloseHandler != nil {
 					s.onCloseHandler(localConnID)
 				}
+				// only tell Stop() this connection is finished once its
+				// handlers have ended, it's closed and OnClose has run
+				s.connWg.Done()
+				s.logger.Debug("connWg done", "op", op, "conn", localConnID)
 			}()
 
 			if !s.disablePanicRecovery {
